@@ -24,7 +24,10 @@ func ramerDouglasPeucker(dst []float64, seq Sequence, threshold float64) []float
 					maxDist = d
 				}
 			}
-			if maxDist <= threshold {
+			if maxDistIdx == 0 || maxDist <= threshold {
+				// Either all intermediate points are within the threshold,
+				// or (for a negative or NaN threshold) there is no
+				// intermediate point left that is off the line.
 				break
 			}
 			newEnd = maxDistIdx
